@@ -231,6 +231,8 @@ func checkC04(c *Ctx, r *Report) {
 	}
 
 	checkEnforceFlag(c, r)
+
+	ruleIRWriters(c, r, "C04.a", "definitions.RouteSecurity", "definitions.RouteMetadata")
 }
 
 // fieldReadsOf returns the FieldAddr/Field instructions reading a field named `name`.
